@@ -30,6 +30,12 @@ def rec(name, fam, n, size, length, **kw):
     return d
 
 
+def deep(name, grammars, depths, **kw):
+    d = {"kind": "deep", "name": name, "grammars": grammars, "depths": depths, "fam": "peg"}
+    d.update(kw)
+    return d
+
+
 PLANS = {
     "C01": {
         "quick": [ex("peg2", "peg", 2, 3, alphabet=["a", "b", "E"]), rec("pegR", "peg", 1500, 8, 8)],
@@ -62,6 +68,7 @@ PLANS = {
                   ex("spng3", "spng", 3, 3, kinds=["mstream"], modes=["E"], invariants=INV_SPANS),
                   ex("spng4", "spng", 4, 3, kinds=["mapped"], modes=["E"], invariants=INV_SPANS),
                   ex("spn2", "spn", 2, 3, kinds=["slice", "array", "bytes"], modes=["E"], invariants=INV_SPANS),
+                  ex("gapT", "gapT", 1, 3, alphabet=["a", "b", "E"], kinds=["str", "mapped", "mstream", "slice"], modes=["E"], invariants=INV_SPANS),
                   ex("spnr3", "spnr", 3, 3, kinds=["mapped", "slice"], modes=["E"], invariants=INV_SPANS),
                   rec("spnR", "spn", 1500, 8, 8, kinds=["str", "slice"]), rec("spngR", "spng", 1500, 8, 8, kinds=["mapped", "mstream", "stream"]),
                   rec("spnrR", "spnr", 1000, 8, 8, kinds=["mapped", "slice", "wctx", "mapspan"])],
@@ -83,11 +90,13 @@ PLANS = {
                   ex("rcv2k", "rcv", 2, 3, kinds=["bstream", "mstream", "wctx"], modes=["E"]),
                   ex("seek4", "seek", 4, 4, kinds=["io", "bstream", "mstream"], modes=["E"]),
                   ex("spng3k", "spng", 3, 3, kinds=["mapped", "mstream", "wctx", "mapspan"], modes=["E"]),
+                  ex("gapTk", "gapT", 1, 3, kinds=["mapped", "mstream", "stream", "wctx", "mapspan", "io", "slice"], modes=["E"]),
                   rec("pegRk", "peg", 2500, 8, 8, kinds=ALL_KINDS), rec("spngRk", "spng", 1500, 8, 8, kinds=["mapped", "mstream", "stream", "wctx", "mapspan", "io"])],
         "thorough": [ex("peg2k", "peg", 2, 3, kinds=ALL_KINDS), ex("rep2k", "rep", 2, 4, alphabet=["a", ","], kinds=ALL_KINDS, modes=["E"]),
                      ex("rcv3k", "rcv", 3, 3, kinds=["bstream", "mstream", "wctx", "io"], modes=["E"]),
                      ex("seek5", "seek", 5, 4, kinds=["io", "bstream", "mstream", "stream", "mapped"], modes=["E"]),
                      ex("spng4k", "spng", 4, 3, kinds=["mapped", "mstream", "wctx", "mapspan"], modes=["E"]),
+                     ex("gapTk", "gapT", 1, 4, kinds=ALL_KINDS),
                      rec("pegRk", "peg", 30000, 10, 10, kinds=ALL_KINDS), rec("spngRk", "spng", 20000, 10, 10, kinds=["mapped", "mstream", "stream", "wctx", "mapspan", "io"])],
     },
     "C08": {
@@ -100,8 +109,10 @@ PLANS = {
         "thorough": [ex("memo3", "memo", 3, 4), ex("memoT", "memoT", 1, 6), ex("lrec", "lrec", 1, 7, alphabet=["a", "+"], invariants=NO_DEN), rec("memoR", "memo", 30000, 10, 10)],
     },
     "C12": {
-        "quick": [ex("rec", "rec", 1, 5, alphabet=["a", "b", "(", ")"]), rec("recR", "rec", 1500, 8, 10)],
-        "thorough": [ex("rec", "rec", 1, 6, alphabet=["a", "b", "(", ")"]), rec("recR", "rec", 30000, 10, 14)],
+        "quick": [ex("rec", "rec", 1, 5, alphabet=["a", "b", "(", ")"]), rec("recR", "rec", 1500, 8, 10),
+                  deep("deep", ["paren", "parend", "mutual", "rightrec", "define2"], [3000, 100000])],
+        "thorough": [ex("rec", "rec", 1, 6, alphabet=["a", "b", "(", ")"]), rec("recR", "rec", 30000, 10, 14),
+                     deep("deep", ["paren", "parend", "mutual", "rightrec", "prefix", "infixr", "define2"], [1000, 3000, 10000, 100000, 1000000])],
     },
     "C13": {
         "quick": [ex("hpeg2", "peg", 2, 2, hist=1), ex("hmemo2", "memo", 2, 2, hist=2, modes=["E"], kinds=["slice"]),
@@ -157,8 +168,10 @@ PLANS = {
         "quick": [ex("peg2", "peg", 2, 3, etys=["rich", "empty"]), ex("err2", "err", 2, 3, etys=ALL_ETYS),
                   ex("lbl2", "lbl", 2, 3, etys=["empty", "cheap"]), ex("rcv2", "rcv", 2, 3, etys=["empty", "simple"]), ex("memo2", "memo", 2, 3, etys=["empty"]),
                   rec("pegR", "peg", 1500, 8, 8, etys=ALL_ETYS), rec("lblR", "lbl", 1000, 8, 8, etys=ALL_ETYS), rec("rcvR", "rcv", 1000, 8, 8, etys=ALL_ETYS),
-                  rec("memoR", "memo", 1000, 8, 8, etys=ALL_ETYS)],
-        "thorough": [ex("peg3", "peg", 3, 3, etys=["rich", "empty"]), ex("err3", "err", 3, 3, etys=ALL_ETYS),
+                  rec("memoR", "memo", 1000, 8, 8, etys=ALL_ETYS),
+                  deep("deep", ["prefix", "infixr", "infixl", "postfix", "repeat", "paren"], [3000, 60000])],
+        "thorough": [deep("deep", ["paren", "parend", "mutual", "rightrec", "prefix", "infixr", "infixl", "postfix", "repeat"], [1000, 10000, 100000, 1000000]),
+                     ex("peg3", "peg", 3, 3, etys=["rich", "empty"]), ex("err3", "err", 3, 3, etys=ALL_ETYS),
                      ex("lbl3", "lbl", 3, 3, etys=["empty", "cheap"]), ex("rcv3", "rcv", 3, 3, etys=["empty", "simple"]), ex("memo3", "memo", 3, 3, etys=["empty"]),
                      rec("pegR", "peg", 30000, 10, 12, etys=ALL_ETYS), rec("lblR", "lbl", 20000, 10, 10, etys=ALL_ETYS), rec("rcvR", "rcv", 20000, 10, 10, etys=ALL_ETYS),
                      rec("memoR", "memo", 20000, 10, 10, etys=ALL_ETYS), rec("repR", "rep", 20000, 9, 12, etys=ALL_ETYS)],
